@@ -4304,6 +4304,34 @@ async fn handle_connected_state_no_dtls(
         let pc_temp = PeerConnection {
             inner: inner.clone(),
         };
+        // SDES-SRTP derives its keys from the a=crypto lines of BOTH descriptions.
+        // An answerer reaches this point from set_remote_description(offer), i.e.
+        // before its own answer has been applied (JSEP order): wait until both
+        // descriptions are present instead of failing the transport start with
+        // "Missing crypto attributes for SDES".
+        if inner.config.transport_mode == TransportMode::Srtp {
+            let mut sig_rx = inner.signaling_state.subscribe();
+            loop {
+                if *sig_rx.borrow_and_update() == SignalingState::Closed {
+                    return false;
+                }
+                let ready = inner.local_description.lock().is_some()
+                    && inner.remote_description.lock().is_some();
+                if ready {
+                    break;
+                }
+                // set_local_description publishes the signaling state before it
+                // stores the description, so also re-check shortly after a change.
+                tokio::select! {
+                    res = sig_rx.changed() => {
+                        if res.is_err() {
+                            return false;
+                        }
+                    }
+                    _ = tokio::time::sleep(std::time::Duration::from_millis(20)) => {}
+                }
+            }
+        }
         // For RTP/SRTP, we pass false as is_client, but it doesn't matter as start_dtls handles it
         #[cfg(rustrtc_verif)]
         inner.vemit("start_transport", "nodtls");
